@@ -4,8 +4,12 @@ import PsVerif.Model.Timelock
 C12  Neither side pays more than it agreed to.
 
 Model: Model/Amounts.lean.  The statements carry the no-wrap hypotheses the proofs force
-(amount < 2^63/1000, premium ≥ -amount, fee estimate < 2^51 for the float64 product); outside them the
-arithmetic wraps — witness `C12_violated_negative_premium`, replayed on the real code (known finding).
+(amount < 2^63/1000, fee estimate < 2^51 for the float64 product).  The hypothesis `premium ≥ -amount` that
+the proofs forced at first marked a genuine — and exploitable — defect: an agreement premium below −amount
+passed CheckPremiumAmount, the claim amount wrapped to 2^64−k, and k can be chosen so that the ×1000 of the
+invoice check wraps onto any payable amount (`C12_old_rule_exploit`; replayed on the real machines: 1 000 000
+sat paid for a 100 000 sat swap with a 1 % limit).  Repaired in /repo (`checkPremiumLowerBound`); the
+hypothesis is now a CONSEQUENCE of the decision (`premium_not_too_low`).
 -/
 namespace PsVerif.Props.C12
 open PsVerif PsVerif.Model
@@ -34,12 +38,42 @@ theorem addPremium_exact (amount : Nat) (premium : Int) (ha : amount < 2 ^ 63)
   rw [this]
   omega
 
-/-- swap-out initiator: it pays the fee invoice only if the premium is within its limit, the channel can
-    carry amount + fee, and the fee is at most three times its own estimate -/
+/-- what `checkPremiumLowerBound` passing gives -/
+theorem premium_not_too_low (amount : Nat) (premium : Int) (h : premiumTooLow amount premium = false) :
+    amount < 2 ^ 63 ∧ -(amount : Int) < premium := by
+  unfold premiumTooLow at h
+  simp only [Bool.or_eq_false_iff, decide_eq_false_iff_not] at h
+  obtain ⟨h1, h2⟩ := h
+  have ha : amount < 2 ^ 63 := by omega
+  refine ⟨ha, ?_⟩
+  have e1 : u64ToI64 amount = (amount : Int) := by
+    unfold u64ToI64 wrapI64
+    have : (Int.ofNat amount) % 18446744073709551616 = (amount : Int) := by
+      apply Int.emod_eq_of_lt <;> simp <;> omega
+    simp only [this]
+    split <;> simp at * <;> omega
+  rw [e1] at h2
+  have e2 : wrapI64 (-(amount : Int)) = -(amount : Int) := by
+    unfold wrapI64
+    by_cases h0 : amount = 0
+    · subst h0; simp
+    · have : (-(amount : Int)) % 18446744073709551616 = 18446744073709551616 - (amount : Int) := by
+        rw [← Int.add_emod_right]
+        have e : -(amount : Int) + 18446744073709551616 = 18446744073709551616 - (amount : Int) := by omega
+        rw [e]
+        apply Int.emod_eq_of_lt <;> omega
+      simp only [this]
+      split <;> omega
+  rw [e2] at h2
+  omega
+
+/-- swap-out initiator: it pays the fee invoice only if the premium is within its limit and does not take
+    the whole amount away, the channel can carry amount + fee, and the fee is at most three times its own
+    estimate -/
 theorem C12_out_initiator_fee (amount : Nat) (premium limit : Int) (feeMsat spendable expectedFee : Nat)
     (ha : amount * 1000 + feeMsat < 2 ^ 64)
     (h : feeDecision amount premium limit feeMsat spendable expectedFee = .pay) :
-    premium ≤ limit ∧ amount * 1000 + feeMsat ≤ spendable ∧ feeMsat / 1000 ≤ 3 * expectedFee := by
+    premium ≤ limit ∧ -(amount : Int) < premium ∧ amount * 1000 + feeMsat ≤ spendable ∧ feeMsat / 1000 ≤ 3 * expectedFee := by
   unfold feeDecision at h
   split at h
   · cases h
@@ -47,19 +81,33 @@ theorem C12_out_initiator_fee (amount : Nat) (premium limit : Int) (feeMsat spen
     · cases h
     · split at h
       · cases h
-      · rename_i h1 h2 h3
-        have e : wrapU64 (wrapU64 (amount * 1000) + feeMsat) = amount * 1000 + feeMsat := by
-          unfold wrapU64; omega
-        rw [e] at h2
-        omega
+      · split at h
+        · cases h
+        · rename_i h1 h0 h2 h3
+          have e : wrapU64 (wrapU64 (amount * 1000) + feeMsat) = amount * 1000 + feeMsat := by
+            unfold wrapU64; omega
+          rw [e] at h2
+          have hl := premium_not_too_low amount premium (by simpa using h0)
+          omega
 
-/-- … and the claim invoice it accepts is for exactly amount + premium (premium ≤ limit) -/
-theorem C12_out_initiator_claim (amount : Nat) (premium limit : Int) (msat : Nat) (cltv : Int) (maxFinal : Nat)
-    (ha : amount < 9223372036854775) (hlo : -(amount : Int) ≤ premium) (hhi : (amount : Int) + premium < 9223372036854775)
-    (hp : premium ≤ limit)
+/-- … and the claim invoice it accepts afterwards is for exactly amount + premium, which is positive and at
+    most amount + limit: NO hypothesis on the premium — whatever the peer sends, if the node went on to pay
+    the fee, the claim it accepts is within what it agreed to -/
+theorem C12_out_initiator_claim (amount : Nat) (premium limit : Int) (feeMsat spendable expectedFee : Nat)
+    (msat : Nat) (cltv : Int) (maxFinal : Nat)
+    (ha : amount < 9223372036854775) (hhi : (amount : Int) + limit < 9223372036854775)
+    (hd : feeDecision amount premium limit feeMsat spendable expectedFee = .pay)
     (hv : validateClaimInvoice msat cltv (claimAmountOut amount premium) maxFinal = .ok) :
-    (msat : Int) = ((amount : Int) + premium) * 1000 ∧ (msat : Int) ≤ ((amount : Int) + limit) * 1000 := by
-  have hx := addPremium_exact amount premium (by omega) hlo (by omega)
+    (msat : Int) = ((amount : Int) + premium) * 1000 ∧ 0 < (msat : Int) ∧ (msat : Int) ≤ ((amount : Int) + limit) * 1000 := by
+  have hp : premium ≤ limit ∧ -(amount : Int) < premium := by
+    unfold feeDecision at hd
+    split at hd
+    · cases hd
+    · split at hd
+      · cases hd
+      · rename_i h1 h0
+        exact ⟨by omega, (premium_not_too_low amount premium (by simpa using h0)).2⟩
+  have hx := addPremium_exact amount premium (by omega) (by omega) (by omega)
   unfold validateClaimInvoice at hv
   split at hv
   · cases hv
@@ -74,35 +122,44 @@ theorem C12_out_initiator_claim (amount : Nat) (premium limit : Int) (msat : Nat
       rw [this] at hm
       have hmi : (msat : Int) = (addPremium amount premium : Int) * 1000 := by rw [hm]; simp
       rw [hx] at hmi
-      constructor
-      · exact hmi
-      · rw [hmi]; omega
+      refine ⟨hmi, by rw [hmi]; omega, by rw [hmi]; omega⟩
 
-/-- swap-in initiator: it locks exactly amount + premium (premium ≤ limit) and asks for exactly amount -/
+/-- swap-in initiator: it locks exactly amount + premium (0 < amount + premium ≤ amount + limit) and asks for
+    exactly amount — again with no hypothesis on the premium -/
 theorem C12_in_initiator (amount : Nat) (premium limit : Int) (lock ask : Nat)
-    (ha : amount < 9223372036854775) (hlo : -(amount : Int) ≤ premium) (hhi : (amount : Int) + premium < 2 ^ 63)
+    (ha : amount < 9223372036854775) (hhi : (amount : Int) + limit < 2 ^ 63)
     (h : inDecision amount premium limit = some (lock, ask)) :
-    premium ≤ limit ∧ (lock : Int) = amount + premium ∧ (lock : Int) ≤ amount + limit ∧ ask = amount * 1000 := by
+    premium ≤ limit ∧ (lock : Int) = amount + premium ∧ 0 < (lock : Int) ∧ (lock : Int) ≤ amount + limit ∧ ask = amount * 1000 := by
   unfold inDecision at h
   split at h
   · cases h
-  · rename_i hp
-    injection h with h
-    injection h with h1 h2
-    have hx := addPremium_exact amount premium (by omega) hlo hhi
-    unfold openingAmountIn at h1
-    subst h1
-    refine ⟨by omega, hx, by omega, ?_⟩
-    rw [← h2]; unfold wrapU64; omega
+  · split at h
+    · cases h
+    · rename_i hp h0
+      injection h with h
+      injection h with h1 h2
+      have hl := premium_not_too_low amount premium (by simpa using h0)
+      have hx := addPremium_exact amount premium (by omega) (by omega) (by omega)
+      unfold openingAmountIn at h1
+      subst h1
+      refine ⟨by omega, hx, by omega, by omega, ?_⟩
+      rw [← h2]; unfold wrapU64; omega
 
 /-- the responder charges `ppmCompute` of its own rate (C27 says which rate) -/
 theorem C12_responder_exact (s : RateStore) (peer : String) (a o amt : Nat) :
     settingCompute s peer a o amt = (getRate s peer a o).map (ppmCompute amt) := rfl
 
-/-- outside the hypotheses the outflow is NOT bounded by the arithmetic alone: an agreement premium of
-    −(amount+1) passes the limit check and makes the amount 2^64−1 -/
-theorem C12_violated_negative_premium :
-    inDecision 1000000 (-1000001) 0 = some (18446744073709551615, 1000000000) := by decide
+/-- a premium of −(amount+1) — which the code before the repair accepted, making the amount 2^64−1 — is refused -/
+theorem C12_premium_below_minus_amount_refused :
+    inDecision 1000000 (-1000001) 0 = none ∧ inDecision 1000000 (-1000000) 0 = none
+    ∧ feeDecision 100000 (-2305843009212793952) 1000 500000 5000000000 500 = .premiumTooLow := by decide
+
+/-- the arithmetic of the old rule, as exploited: amount 100 000 sat, premium −2305843009212793952 (≤ any
+    limit): the claim amount is 2^64 − 2305843009212693952 sat and its ×1000 wraps onto 1 000 000 000 msat — the
+    invoice check of the old code accepted a perfectly payable claim invoice of ten times the swap amount -/
+theorem C12_old_rule_exploit :
+    claimAmountOut 100000 (-2305843009212793952) = 18446744073709551616 - 2305843009212693952
+    ∧ wrapU64 (claimAmountOut 100000 (-2305843009212793952) * 1000) = 1000000000 := by decide
 
 example : feeDecision 1000000 1000 50000 500000 5000000000 500 = .pay := by decide
 example : feeDecision 1000000 1000 50000 1501000 5000000000 500 = .feeTooHigh := by decide
